@@ -70,7 +70,10 @@ def generate(rng, tier):
         ops.append({"op": "write", "path": "@M/patterns.txt", "c": {"text": env["_pat"] + "\n"}})
     env.pop("_pat", None)
     nested = []
-    if not flat and rng.random() < 0.4:
+    if not flat and rng.random() < 0.4 and not lookalike:
+        # (not together with the anchored look-alike pattern: an anchored pattern means something else relative to a
+        # nested root, so the nested history's own generation would have recorded another tree than the outer run sees -
+        # soak seed 1616)
         nested = [n for n in scen.subroots_of(tree, rng, 2) if not (pat_args and "cache" in n.split("/"))]
         for sub in nested:
             # the same effective patterns in every generation of every history (the statement's "identical to what
